@@ -405,14 +405,15 @@ def wv_elem(page, tok, content):
     return (bytes([0, page]) if page else b"") + bytes([tok | 0x40]) + content + b"\x01"
 
 
-def doc_cases(exp_xml_tail, lang, wbxml, xml=None, force=0, w2w=True, kind="doc"):
+def doc_cases(exp_xml_tail, lang, wbxml, xml=None, force=0, w2w=True, kind="doc", x2w_bytes=True):
     """the three directions of one minimal document; expectations are suffixes (the XML prologue and the WBXML header
     — version, public id, charset, string table — are not C12's business)"""
     o = exp_xml_tail if isinstance(exp_xml_tail, tuple) else ("xml_tail", exp_xml_tail)
     body = wbxml[len(HDR[lang]):]
     cs = [Case("P", "w2x %d %s" % (force, hx(wbxml)), o, kind + "_w2x", model=False)]
     if xml is not None:
-        cs.append(Case("P", "x2w " + hx(xml), ("bytes_tail", body), kind + "_x2w", model=False))
+        # meta: the second pass feeds the C's own WBXML back through w2x and applies this XML oracle again
+        cs.append(Case("P", "x2w " + hx(xml), ("bytes_tail", body) if x2w_bytes else ("ok",), kind + "_x2w", model=False, meta=("back", force, o)))
     if w2w:
         cs.append(Case("P", "w2w %d %s" % (force, hx(wbxml)), ("bytes_tail", body), kind + "_w2w", model=False))
     return cs
@@ -473,6 +474,14 @@ def gen_docs(ctx, rng, n):
         w = HDR[L_OTA] + bytes.fromhex("45c67f018710034943" "4f4e0011") + opaque(s) + bytes([1, 1, 1])
         tail = '<CHARACTERISTIC-LIST><CHARACTERISTIC TYPE="BOOKMARK"><PARM NAME="ICON" VALUE="%s"/></CHARACTERISTIC></CHARACTERISTIC-LIST>' % t
         cs += doc_cases(tail.encode(), L_OTA, w, xml_doc(L_OTA, tail), force=L_OTA, kind="doc_ota_icon")
+        if i % 3 == 0:
+            tail = '<CHARACTERISTIC-LIST><CHARACTERISTIC TYPE="BOOKMARK"><PARM NAME="URL" VALUE="%s"/></CHARACTERISTIC></CHARACTERISTIC-LIST>' % t.rstrip("=")
+            cs.append(Case("P", "x2w " + hx(xml_doc(L_OTA, tail)), ("ok",), "doc_ota_not_icon_x2w", model=False, meta=("back", L_OTA, ("xml_tail", tail.encode()))))
+            v = rng.below(1 << rng.range(1, 32))
+            page, tok, name = [(5, 0x05, "Accuracy"), (5, 0x09, "Altitude"), (5, 0x32, "Cpriority")][i % 9 // 3]
+            tail = "<%s>%d</%s>" % (name, v, name)
+            cs.append(Case("P", "w2x 0 " + hx(HDR[L_WV12] + wv_elem(page, tok, opaque(be_min(v)))), ("xml_tail", tail.encode()), "doc_wv_int_page5_w2x", model=False))
+            cs.append(Case("P", "x2w " + hx(xml_doc(L_WV12, tail)), ("ok",), "doc_wv_int_page5_x2w", model=False, meta=("back", 0, ("xml_tail", tail.encode()))))
         # DRMREL ds:KeyValue (XML side of DRMREL documents loses the prefixes at the public API: tree round trip instead)
         w = HDR[L_DRMREL] + bytes([0x45, 0x4C]) + opaque(s) + bytes([1, 1])
         tail = "<o-ex:rights><ds:KeyValue>%s</ds:KeyValue></o-ex:rights>" % t
@@ -481,7 +490,11 @@ def gen_docs(ctx, rng, n):
         lang = L_SYNCML[i % 3]
         w = HDR[lang] + bytes.fromhex("6d495a000150") + opaque(s) + bytes([1, 1, 1, 1])
         tail = '<NextNonce xmlns="syncml:metinf">%s</NextNonce></Meta></Chal></SyncML>' % t
-        cs += doc_cases(tail.encode(), lang, w, None, w2w=False, kind="doc_syncml_nextnonce")
+        SYNC_DT = {2001: '<!DOCTYPE SyncML PUBLIC "-//SYNCML//DTD SyncML 1.0//EN" "http://www.syncml.org/docs/syncml_represent_v10_20001207.dtd">',
+                   2101: '<!DOCTYPE SyncML PUBLIC "-//SYNCML//DTD SyncML 1.1//EN" "http://www.syncml.org/docs/syncml_represent_v11_20020213.dtd">',
+                   2201: '<!DOCTYPE SyncML PUBLIC "-//SYNCML//DTD SyncML 1.2//EN" "http://www.openmobilealliance.org/tech/DTD/OMA-TS-SyncML_RepPro_DTD-V1_2.dtd">'}
+        sx = ('<?xml version="1.0"?>' + SYNC_DT[lang] + '<SyncML xmlns="SYNCML:SYNCML1.%d"><Chal><Meta>' % (L_SYNCML.index(lang)) + tail).encode()
+        cs += doc_cases(tail.encode(), lang, w, sx, w2w=False, kind="doc_syncml_nextnonce", x2w_bytes=False)
         # binary-flagged elements
         lang, rp, rt, root, rns, page, tok, name, ns = BIN_TAGS[i % len(BIN_TAGS)]
         w = HDR[lang] + (bytes([0, rp]) if rp else b"") + bytes([rt | 0x40]) + (bytes([0, page]) if page != rp else b"") + bytes([tok | 0x40]) + opaque(s) + bytes([1, 1])
@@ -522,6 +535,8 @@ def judge(c, ans):
         return "no answer"
     if tag == "error":
         return None if ans.startswith("err") else "expected an error"
+    if tag == "ok":
+        return None if ans.startswith("ok ") else "expected success"
     if not ans.startswith("ok "):
         return "expected success"
     body = bytes.fromhex(ans[3:]) if ans[3:] != "-" else b""
@@ -708,6 +723,15 @@ def run(ctx):
         for c in cr:
             c["harness"] = key
         crashes += cr
+    # second pass: every WBXML the C produced from XML goes back through WBXML->XML and must show the same value
+    back = [(i, c) for i, c in enumerate(cases) if isinstance(c.meta, tuple) and c.meta and c.meta[0] == "back" and (cans[i] or "").startswith("ok ")]
+    bcases = [Case("P", "w2x %d %s" % (c.meta[1], cans[i][3:]), c.meta[2], c.kind + "_and_back", model=False) for i, c in back]
+    ba, cr = common.run_lines(hp, [c.line for c in bcases])
+    for c in cr:
+        c["harness"] = "P"
+    crashes += cr
+    cases += bcases
+    cans += ba
     midx = [i for i, c in enumerate(cases) if c.model]
     mans = [None] * len(cases)
     a, mcr = common.run_lines(driver, [cases[i].line for i in midx])
